@@ -20,6 +20,7 @@ func c14(c *Ctx) {
 	c14R3(c)
 	c14R4(c, "C14.R4")
 	c14R6(c)
+	ruleArgSwap(c, "C14.R7", c.P.AllFuncs(), "the whole module (names are derived from the namespace / name / interface triple in that order)")
 	ruleStateless(c, "C14.R5", [][2]string{
 		{"pkg/link", "VethNameForPod"},
 		{"plugin/driver/utils", "GetRouteTableID"},
